@@ -87,6 +87,7 @@ def handle (line : String) : String :=
     ManiaPattern.Wire.handleMPP total rng x sample ct cd prev span start end_ seg nodes
   | ["MPE", total, rng, sample, prev, hold, short] => ManiaPattern.Wire.handleMPE total rng sample prev hold short
   | ["MPT", total, seed, cd, objs] => ManiaPattern.Wire.handleMPT total seed cd objs
+  | ["MPN", start, span, dist, bl, sm] => ManiaPattern.Wire.handleMPN start span dist bl sm
   | _ => "bad-op"
 
 partial def loop (h : IO.FS.Stream) (out : IO.FS.Stream) : IO Unit := do
